@@ -303,6 +303,15 @@ def _bool_env_eval(text, env):
         return None
 
 
+def _state_ok(env, obj):
+    """states of a guarded object: the amount in use / the level / the length never exceeds the capacity"""
+    cap = env.get("%s->capacity" % obj)
+    if cap is None:
+        return True
+    return all(v <= cap for k, v in env.items()
+               if k in ("%s->in_use" % obj, "%s->level" % obj, "%s->length" % obj, "%s->queue.heap_count" % obj))
+
+
 def demand_rule(rep, m):
     """R-C08-8: the demand a waiter registers covers the condition it waits for."""
     import itertools
@@ -352,6 +361,8 @@ def demand_rule(rep, m):
                 if dv is None or any(w_ is None for w_ in ws):
                     decided = False
                     break
+                if not _state_ok(env, obj):
+                    continue
                 # unsigned differences that would wrap are not states of the object
                 if any(env[a_] < env[b_] for a_, b_ in re.findall(r"\((%s->[\w.]+) - (%s->[\w.]+)\)" % (re.escape(obj), re.escape(obj)),
                                                                    " ".join(W) + " " + dtext) if a_ in env and b_ in env):
@@ -362,6 +373,48 @@ def demand_rule(rep, m):
         if not decided:
             r8.notes.append("%s: the wait condition / demand %s is not a plain condition on the object's fields" % (f.name, dn))
             continue
+        # the guard waited at is the one that is signalled when the demand can become true: the class table says in which
+        # direction a change of the state field serves each guard (front: up, rear: down, resource: holder becomes NULL);
+        # the demand may turn from false to true only through a change in that direction
+        gname = re.fullmatch(r"&\(?\w+\)?->(\w+)", g_arg).group(1)
+        cls = next((c_ for c_, inf in region.CLASSES.items() if inf["unit"] == rel or inf["header"] == rel), None)
+        direction = region.CLASSES[cls]["guards"].get(gname) if cls else None
+        if direction is not None and bad is None:
+            inf = region.CLASSES[cls]
+            main = [fl for fl in fields if fl in ("%s->%s" % (obj, inf["field"]), "%s->%s.heap_count" % (obj, inf["field"]))
+                    or any(fl == "%s->%s" % (obj, a_) for a_ in inf.get("also", []))]
+            wrong = None
+            if main and len(fields) + len(others) <= 6:
+                for vals in itertools.product(*([dom_f] * len(fields) + [dom_o] * len(others))):
+                    env = dict(zip(fields + others, vals))
+                    if not _state_ok(env, obj) or _bool_env_eval(dtext, env):
+                        continue
+                    for fl in main:
+                        for nv in dom_f:
+                            if nv == env[fl]:
+                                continue
+                            env2 = dict(env)
+                            env2[fl] = nv
+                            if not _state_ok(env2, obj) or not _bool_env_eval(dtext, env2):
+                                continue
+                            served = (direction == "up" and nv > env[fl]) or (direction == "down" and nv < env[fl]) or \
+                                (direction == "null" and nv == 0)
+                            if not served:
+                                wrong = (fl, env[fl], nv)
+                                break
+                        if wrong:
+                            break
+                    if wrong:
+                        break
+            r8.instance("%s: demand %s at %s, which is signalled when %s goes %s" % (f.name, dn, gname, inf["field"], direction))
+            if wrong:
+                rep.finding(r8, f.name, "demand:wrong-guard", "%s waits at %s, the guard that is signalled when %s goes '%s', with the "
+                            "demand %s (%s), which becomes true when %s changes from %s to %s: the signals that could satisfy the "
+                            "waiter go to the other guard and it is never woken" %
+                            (f.name, g_arg, inf["field"], direction, dn, dtext, wrong[0], wrong[1], wrong[2]), where=m.rel(loc(c)))
+                r8.fail()
+            else:
+                r8.ok()
         if bad is not None:
             rep.finding(r8, f.name, "demand:does-not-cover", "%s waits at %s while %s, but registers the demand %s (%s): in the state "
                         "%s the caller could go on and the demand is false, so a signal sent in that state passes the waiter over"
